@@ -106,7 +106,7 @@ def gen_description(rng, chain=False):
                                         'fiber': rng.choice(['SSMF', 'NZDF', 'LOF']),
                                         'lineic': rng.choice([0.2, 0.21, 0.22, 0.19]),
                                         'con_in': rng.choice([None, 0.5, 0.3, 0]), 'con_out': rng.choice([None, 0.5, 0.4, 0]),
-                                        'pmd': rng.choice([None, None, 0.04, 0.1]), 'cable': f'F{k:03d}'}, 'west': {}}
+                                        'pmd': rng.choice([None, None, 0.04, 0.1, 0]), 'cable': f'F{k:03d}'}, 'west': {}}
         if rng.random() < 0.5:
             row['west'] = {'distance': rng.choice([round(rng.uniform(20, 120), 3), rng.randint(20, 120)]),
                            'fiber': rng.choice(['SSMF', 'NZDF']),
